@@ -852,7 +852,7 @@ Plan gen_c14(uint64_t seed, uint64_t run, const std::string& cfg) {
     for (int k = 0; k < nops; ++k) {
       int kind = common >= 0 && g.chance(0.8) ? common : (int)g.below(N_ENTRY_KINDS);
       if (shared >= 0 && g.chance(0.4)) kind = (int)g.below(2);
-      bool big = g.chance(0.05); int bigpts = 120; if (big && g.chance(0.12)) bigpts = g.chance(0.75) ? 1500 : 3500;
+      bool big = g.chance(0.05); int bigpts = 120; if (big && g.chance(0.12)) bigpts = (g.chance(0.75) || cfg[0] == 'T') ? 1500 : 3500;     // (TSan builds: a 3500-point case takes tens of seconds)
       // builds without UBSan (P*, T*) also get tasks with huge coordinates (boolean clipping only): state that the library
       // writes only for extreme input is then written while other tasks are in flight
       bool huge = (cfg[0] == 'P' || cfg[0] == 'T') && (kind <= 1 || kind == 3 || kind == 11 || kind == 16) && g.chance(0.15);
